@@ -658,7 +658,10 @@ class InProtocolBase(ProtocolMixin):
                 if isinstance(string, six.text_type):
                     string = string.encode('utf8')
 
-            retval = datetime.strptime(string, dt_format)
+            try:
+                retval = datetime.strptime(string, dt_format)
+            except (ValueError, TypeError) as e:
+                raise ValidationError(string, "%%r: %s" % (e,))
 
             astz = cls_attrs.as_timezone
             if astz:
